@@ -31,7 +31,13 @@ def selftest() -> None:
     busmodel.selftest()
 
 
+BIG_PROFILE = progen.Profile(text=True, max_stmts=160, max_depth=5, call_weight=5)
+
+
 def _build(rng):
+    if rng.random() < 0.03:
+        # a program of 100+ statements (dozens of labels, scopes and macro applications)
+        return progen.generate(rng, BIG_PROFILE)
     if rng.random() < 0.2:
         # a generated .map configuration instead of a built-in mapping
         return progen.generate(rng, PROFILE, rom="low", usermap=progen.random_usermap(rng))
